@@ -14,6 +14,10 @@ pub fn apply_operation(
     let current_dir = working_dir.unwrap_or_else(|| Path::new("."));
     let renamify_dir = current_dir.join(".renamify");
 
+    // Applying rewrites the tree and the history: no other renamify command may run meanwhile
+    let _lock = crate::LockFile::acquire(&renamify_dir)
+        .context("Failed to acquire lock for renamify operation")?;
+
     // Load the plan - check if plan_id looks like a path
     let (plan_path, plan_id) = if let Some(id) = plan_id {
         if id.contains('/')
